@@ -1,16 +1,22 @@
 import JokerVerif.Drive.Common
 import JokerVerif.Drive.BatchOps
+import JokerVerif.Drive.RejectOps
+import JokerVerif.Drive.KernelOps
+import JokerVerif.Drive.HistOps
+import JokerVerif.Drive.RngOps
+import JokerVerif.Drive.CacheOps
+import JokerVerif.Drive.DataOps
+import JokerVerif.Drive.StoreOps
+import JokerVerif.Drive.SamplesOps
+import JokerVerif.Drive.DiagOps
+import JokerVerif.Drive.PriorOps
+import JokerVerif.Drive.McmcOps
 /-! Line-protocol driver: one JSON object per input line, one JSON object per output line.
-Run with `lake env lean --run Driver.lean`. -/
+Run with `lake env lean --run Driver.lean`.  Each `Drive/*Ops.lean` contributes a list of (op name, handler). -/
 open Lean Drive
 
-def dispatch (op : String) : Option H :=
-  match op with
-  | "ping" => some fun _ => pure (Json.mkObj [("pong", jNat 1)])
-  | "batch.tasks" => some batchTasksOp
-  | "batch.arr" => some batchArrOp
-  | "batch.runworker" => some runWorkerOp
-  | _ => none
+def allOps : List (String × H) :=
+  [("ping", fun _ => pure (Json.mkObj [("pong", jNat 1)]))] ++ batchOps ++ rejectOps ++ kernelOps ++ histOps ++ rngOps ++ cacheOps ++ dataOps ++ storeOps ++ samplesOps ++ diagOps ++ priorOps ++ mcmcOps
 
 def handleLine (line : String) : Json :=
   match Json.parse line with
@@ -19,7 +25,7 @@ def handleLine (line : String) : Json :=
     match j.getObjValAs? String "op" with
     | .error _ => Json.mkObj [("err", "bad-op"), ("detail", "no op")]
     | .ok op =>
-      match dispatch op with
+      match allOps.lookup op with
       | none => Json.mkObj [("err", "bad-op"), ("detail", op)]
       | some h =>
         match h j with
